@@ -505,3 +505,726 @@ def gallina_of_model(model, k, dt):
     kind, expr = get(g.output[0].name)
     ocode = CODE_NAME.get(g.output[0].type.tensor_type.elem_type)
     return "fun " + " ".join(params + extra_binders) + " => " + expr, kind, ocode
+
+
+# ------------------------------------------------------------------------------------------------ Coq names
+def coq_names(k, dt):
+    """(jax_<k> term, lowered_<k> term, kind of the result) at this dtype variant — the definitions of
+    coq/theories/Kernels.v the real export is compared with"""
+    n = k.name
+    sb = sb_lit(dt) if dt in INT_DTYPES else None
+    isb = dt == "bool"
+    if n in ("add", "sub", "mul", "neg", "abs", "sign", "div", "rem", "floor_divide", "mod", "fmod", "bitand", "bitor",
+             "bitxor", "bitnot", "shift_left", "shift_right_logical"):
+        return f"jax_{n} {sb}", f"lowered_{n} {sb}", "int"
+    if n == "shift_right_arithmetic":
+        return f"jax_shift_right_arithmetic {sb}", f"lowered_sra_{'signed' if dt in SIGNED else 'unsigned'} {sb}", "int"
+    if n in ("max", "min", "clamp", "clip", "relu"):
+        return f"jax_{n}", f"lowered_{n}", "int"
+    if n == "relu6":
+        return "jax_relu6", "lowered_relu6", "fint"
+    if n in ("select_n", "where"):
+        s = "_b" if isb else ""
+        return f"jax_{n}{s}", f"lowered_{n}{s}", "bool" if isb else "int"
+    if n == "select_n_int":
+        return "jax_select_n_int", "lowered_select_n_int", "int"
+    if n.startswith("bool_"):
+        return f"jax_{n}", f"lowered_{n}", "bool"
+    if n in ("eq", "ne", "lt", "le", "gt", "ge"):
+        s = "_b" if isb else ""
+        return f"jax_{n}{s}", f"lowered_{n}{s}", "bool"
+    if n in ("round_away",):
+        return "jax_round_away", "lowered_round", "fint"
+    if n in ("round_even", "jnp_round"):
+        return "jax_round_even", "lowered_round", "fint"
+    if n in ("floor", "ceil"):
+        return f"jax_{n}", f"lowered_{n}", "fint"
+    if n.startswith("integer_pow"):
+        y = k.extra["y"]
+        return f"(fun x => jax_integer_pow {sb} x {y}%nat)", f"(fun x => lowered_integer_pow {sb} x {y}%nat)", "int"
+    if n.startswith("convert_bool_"):
+        tb = sb_lit(k.extra["to"])
+        return f"jax_convert_of_bool {tb}", f"lowered_convert_of_bool {tb}", "int"
+    if n == "convert_to_bool":
+        return "jax_convert_to_bool", "lowered_convert_to_bool", "bool"
+    if n.startswith("convert_"):
+        tb = sb_lit(k.extra["to"])
+        return f"jax_convert_int {tb}", f"lowered_convert_int {tb}", "int"
+    if n == "one_hot":
+        nn = k.extra["n"]
+        return f"(fun i j => jax_one_hot {nn} i j)", f"(fun i j => lowered_one_hot {sb} {nn} i j)", "fint"
+    if n == "dynamic_slice":
+        d, s = k.extra["dim"], k.extra["size"]
+        return f"(fun i => jax_dynamic_slice {sb} {d} {s} i)", f"(fun i => lowered_dynamic_slice {sb} {d} {s} i)", "slice"
+    raise KeyError(n)
+
+
+def lit(v):
+    if isinstance(v, (bool, np.bool_)):
+        return blit(bool(v))
+    if isinstance(v, (float, np.floating)):
+        fr = Fraction(float(v))
+        return f"({zlit(fr.numerator)}, {zlit(fr.denominator)})"
+    return zlit(int(v))
+
+
+def result_lit(v, kind):
+    if kind == "bool":
+        return blit(bool(v))
+    if kind == "fint":
+        f = float(v)
+        if not f.is_integer():
+            raise ValueError(f"non-integral float result {v}")
+        return zlit(int(f))
+    return zlit(int(v))
+
+
+COQ_HDR = common.CASES_HEADER + "From J2O Require Import OnnxInt Kernels.\n"
+
+
+def eq_term(kind, a, b):
+    return f"Bool.eqb ({a}) ({b})" if kind == "bool" else f"(({a}) =? ({b}))"
+
+
+# ------------------------------------------------------------------------------------------------ variants
+class Variant:
+    def __init__(self, k, dt):
+        self.k, self.dt = k, dt
+        self.id = f"{k.name}:{dt}"
+        self.inputs = None
+        self.jax = None          # numpy result of eager JAX (or list for dynamic_slice)
+        self.jax_err = None
+        self.model = None
+        self.export_err = None
+        self.ort = None
+        self.ort_err = None
+        self.term = None
+        self.term_err = None
+        self.bad = []            # indices of grid points where ORT != JAX
+        self.status = "pending"
+
+    def needs64(self):
+        return any(np.dtype(a.dtype).itemsize == 8 for a in self.inputs) or \
+            np.dtype(self.k.extra.get("to", "int8")).itemsize == 8
+
+
+def point(v, i):
+    return [a[i].item() for a in v.inputs]
+
+
+def rows_jax(v):
+    """per grid point: the JAX result flattened to a list of python scalars"""
+    if v.k.name == "dynamic_slice":
+        return [[int(r[0]), len(r)] if len(r) else [0, 0] for r in v.jax]
+    r = np.asarray(v.jax)
+    return [np.atleast_1d(r[i]).tolist() for i in range(len(v.inputs[0]))]
+
+
+def rows_ort(v):
+    if v.k.name == "dynamic_slice":
+        return [[int(r[0]), len(r)] if len(r) else [0, 0] for r in v.ort]
+    r = np.asarray(v.ort)
+    return [np.atleast_1d(r[i]).tolist() for i in range(len(v.inputs[0]))]
+
+
+def schema_type_errors(model):
+    """nodes whose input element type is outside the operator's ONNX type constraint (the model is then not a
+    valid ONNX model, whatever a runtime does with it)"""
+    import onnx
+    from onnx import defs, shape_inference
+    try:
+        m = shape_inference.infer_shapes(model, strict_mode=False)
+    except Exception:
+        m = model
+    types = {}
+    for vi in list(m.graph.input) + list(m.graph.value_info) + list(m.graph.output):
+        types[vi.name] = vi.type.tensor_type.elem_type
+    for i in m.graph.initializer:
+        types[i.name] = i.data_type
+    opset = {o.domain: o.version for o in m.opset_import}.get("", 21)
+    bad = []
+    for n in m.graph.node:
+        if n.domain not in ("", "ai.onnx"):
+            continue
+        try:
+            sch = defs.get_schema(n.op_type, opset, "")
+        except Exception:
+            continue
+        cons = {c.type_param_str: set(c.allowed_type_strs) for c in sch.type_constraints}
+        for idx, name in enumerate(n.input):
+            if name == "" or name not in types or idx >= len(sch.inputs) and not (sch.inputs and sch.inputs[-1].option == defs.OpSchema.FormalParameterOption.Variadic):
+                continue
+            formal = sch.inputs[min(idx, len(sch.inputs) - 1)]
+            allowed = cons.get(formal.type_str)
+            tname = onnx.helper.tensor_dtype_to_string(types[name]).replace("TensorProto.", "").lower()
+            tstr = f"tensor({ {'float': 'float', 'double': 'double'}.get(tname, tname) })"
+            if allowed is not None and tstr not in allowed:
+                bad.append(f"{n.op_type} input {idx} of type {tstr}")
+    return bad
+
+
+def node_op_dtypes(model):
+    """(op_type, element type name of the first typed input) of every node — to match measured runtime deviations"""
+    from onnx import shape_inference
+    try:
+        m = shape_inference.infer_shapes(model, strict_mode=False)
+    except Exception:
+        m = model
+    types = {}
+    for vi in list(m.graph.input) + list(m.graph.value_info) + list(m.graph.output):
+        types[vi.name] = CODE_NAME.get(vi.type.tensor_type.elem_type)
+    for i in m.graph.initializer:
+        types[i.name] = CODE_NAME.get(i.data_type)
+    out = set()
+    for n in m.graph.node:
+        for name in n.input:
+            if name in types and types[name] is not None:
+                out.add((n.op_type, types[name]))
+                break
+    return out
+
+
+# ------------------------------------------------------------------------------------------------ tie D1: OnnxInt vs onnxruntime
+# (operator, element type) pairs on which the installed onnxruntime is KNOWN to deviate from the ONNX operator
+# semantics (measured on one-op models built with onnx.helper, no jax2onnx involved): 64-bit Max/Min/Sign/Clip/
+# Relu compare only the low 32 bits (Max(-2^32, -7) = -2^32, Sign(2^32-1) = -1); int64 Pow goes through double.
+# A deviation measured on this run that is NOT in this table fails tie D1 (fail closed); exported graphs that
+# contain a deviating (operator, type) are not searched through onnxruntime (recorded in the coverage).
+ORT_KNOWN_DEVIATIONS = {("Max", "int64"), ("Min", "int64"), ("Sign", "int64"), ("Clip", "int64"), ("Relu", "int64"),
+                        ("Max", "uint64"), ("Min", "uint64"), ("Clip", "uint64"), ("Pow", "int64")}
+OPSET = 23
+
+
+def _one_op_model(op, in_types, shapes, attrs, consts=None):
+    from onnx import helper, numpy_helper
+    ins = [helper.make_tensor_value_info(f"i{j}", ONNX_CODE[t], list(s)) for j, (t, s) in enumerate(zip(in_types, shapes))]
+    names = [i.name for i in ins]
+    inits = []
+    for j, c in enumerate(consts or []):
+        inits.append(numpy_helper.from_array(np.asarray(c), name=f"c{j}"))
+        names.append(f"c{j}")
+    node = helper.make_node(op, names, ["o"], **attrs)
+    g = helper.make_graph([node], "g", ins, [helper.make_empty_tensor_value_info("o")], initializer=inits)
+    m = helper.make_model(g, opset_imports=[helper.make_opsetid("", OPSET)])
+    m.ir_version = 10
+    return m
+
+
+def _ort_run(model, feeds):
+    import onnxruntime as ort
+    so = ort.SessionOptions()
+    so.log_severity_level = 4
+    sess = ort.InferenceSession(model.SerializeToString(), so, providers=["CPUExecutionProvider"])
+    return sess.run(None, feeds)[0]
+
+
+def _cap(idx_n, cap, rng, must=()):
+    """deterministic selection of at most cap indices out of range(idx_n), always containing `must`"""
+    if idx_n <= cap:
+        return list(range(idx_n))
+    sel = set(must)
+    step = max(1, idx_n // max(1, cap // 2))
+    sel |= set(range(0, idx_n, step))
+    pool = [i for i in range(idx_n) if i not in sel]
+    rng.shuffle(pool)
+    sel |= set(pool[: max(0, cap - len(sel))])
+    return sorted(sel)
+
+
+def d1_specs(tier):
+    small = True
+    S = []
+
+    def grid(dt, kind):
+        kk = K("d1", [dt], None, kind)
+        return kernel_inputs(kk, dt, "quick", None)
+    for op, coq in (("Add", "o_add {SB}"), ("Sub", "o_sub {SB}"), ("Mul", "o_mul {SB}"), ("Max", "o_max"), ("Min", "o_min"),
+                    ("BitwiseAnd", "o_bitand {SB}"), ("BitwiseOr", "o_bitor {SB}"), ("BitwiseXor", "o_bitxor {SB}")):
+        S.append((op, op, {}, "ii", INT_DTYPES, coq, "int"))
+    for op, coq in (("Neg", "o_neg {SB}"), ("Abs", "o_abs {SB}"), ("Sign", "o_sign {SB}"), ("BitwiseNot", "o_bitnot {SB}"),
+                    ("Relu", "o_relu")):
+        S.append((op, op, {}, "i", INT_DTYPES, coq, "int"))
+    S.append(("Div", "Div", {}, "id", INT_DTYPES, "o_div {SB}", "int"))
+    S.append(("Mod(fmod=0)", "Mod", {"fmod": 0}, "id", INT_DTYPES, "o_mod {SB} false", "int"))
+    S.append(("Mod(fmod=1)", "Mod", {"fmod": 1}, "id", INT_DTYPES, "o_mod {SB} true", "int"))
+    S.append(("BitShift(LEFT)", "BitShift", {"direction": "LEFT"}, "is", UNSIGNED, "o_shl {SB}", "int"))
+    S.append(("BitShift(RIGHT)", "BitShift", {"direction": "RIGHT"}, "is", UNSIGNED, "o_shr {SB}", "int"))
+    for op, coq in (("Equal", "o_equal"), ("Less", "o_less"), ("LessOrEqual", "o_le"), ("Greater", "o_greater"),
+                    ("GreaterOrEqual", "o_ge")):
+        S.append((op, op, {}, "ii", INT_DTYPES, coq, "bool"))
+    S.append(("Equal", "Equal", {}, "ii", ["bool"], "o_equal_b", "bool"))
+    for op, coq in (("And", "o_and"), ("Or", "o_or"), ("Xor", "o_xor")):
+        S.append((op, op, {}, "ii", ["bool"], coq, "bool"))
+    S.append(("Not", "Not", {}, "i", ["bool"], "o_not", "bool"))
+    S.append(("Where", "Where", {}, "bii", INT_DTYPES, "o_where", "int"))
+    S.append(("Where", "Where", {}, "bii", ["bool"], "o_where_b", "bool"))
+    S.append(("Clip", "Clip", {}, "iii", INT_DTYPES, "o_clip", "int"))
+    S.append(("Cast(bool)", "Cast", {"to": ONNX_CODE["bool"]}, "i", INT_DTYPES, "o_cast_to_bool", "bool"))
+    for f in ("Floor", "Ceil", "Round"):
+        S.append((f, f, {}, "f", FLOATS, f"o_{f.lower()}", "fint"))
+    return S
+
+
+def run_d1(ctx, tier, rng):
+    """one-op models through onnxruntime vs the OnnxInt definitions (compared inside Coq).
+    Returns (measured deviations {(op, dtype)}, statistics)"""
+    from onnx import defs
+    items = []     # (label, dtype, coq function text, arg columns, ort rows, result kind)
+    skipped_no_kernel, skipped_schema = [], []
+    cap = 120 if tier == "quick" else 400
+
+    def add(label, op, attrs, dts_in, cols, coqf, kind, consts=None, post=None):
+        model = _one_op_model(op, dts_in, [c.shape for c in cols], attrs, consts)
+        if schema_type_errors(model):
+            skipped_schema.append(f"{label}:{dts_in[-1]}")
+            return
+        try:
+            out = _ort_run(model, {f"i{j}": c for j, c in enumerate(cols)})
+        except Exception as e:
+            msg = str(e)
+            if "NOT_IMPLEMENTED" in msg:
+                skipped_no_kernel.append(f"{label}:{dts_in[-1]}")
+                return
+            ctx.oblige(f"tieD1:{label}:{dts_in[-1]}", False, "tie", "onnxruntime failed on a one-op model: " + msg[:300])
+            return
+        rows = post(out) if post else [np.atleast_1d(out[i]).tolist() for i in range(len(cols[0]))]
+        items.append((label, op, dts_in[-1], coqf, cols, rows, kind))
+
+    for (label, op, attrs, kind_args, dts, coq, rkind) in d1_specs(tier):
+        for dt in dts:
+            kk = K("d1", [dt], None, kind_args)
+            cols = kernel_inputs(kk, dt, "quick", rng)
+            sel = _cap(len(cols[0]), cap, rng)
+            cols = tuple(c[sel] for c in cols)
+            in_types = [str(c.dtype) for c in cols]
+            add(label, op, attrs, in_types, cols, coq.replace("{SB}", sb_lit(dt) if dt in INT_DTYPES else ""), rkind)
+    # Cast int -> int, bool -> int
+    pairs = [(s, t) for s in INT_DTYPES for t in INT_DTYPES if s != t]
+    if tier == "quick":
+        pairs = pairs[::3]
+    for s, t in pairs:
+        cols = (np.array(int_values(s, small=True), dtype=s),)
+        add(f"Cast({t})", "Cast", {"to": ONNX_CODE[t]}, [s], cols, f"o_cast {sb_lit(t)}", "int")
+    for t in INT_DTYPES:
+        add(f"Cast(bool->{t})", "Cast", {"to": ONNX_CODE[t]}, ["bool"], (np.array([False, True]),), f"o_cast_of_bool {sb_lit(t)}", "int")
+    # Pow with a scalar constant exponent
+    for dt in ("int32", "int64"):
+        for y in (0, 1, 2, 3):
+            cols = (np.array(int_values(dt, small=True), dtype=dt),)
+            add(f"Pow({y})", "Pow", {}, [dt], cols, f"(fun x => o_pow {sb_lit(dt)} x {y})", "int", consts=[np.array(y, dtype=dt)])
+    # OneHot(int64 indices, depth 4, float32 [0, 1]) — rows of 4 classes
+    idx = np.array([-2 ** 40, -9, -8, -5, -4, -3, -2, -1, 0, 1, 2, 3, 4, 5, 8, 2 ** 40], dtype=np.int64)
+    model = _one_op_model("OneHot", ["int64"], [idx.shape], {"axis": -1},
+                          consts=[np.array(4, dtype=np.int64), np.array([0, 1], dtype=np.float32)])
+    try:
+        out = _ort_run(model, {"i0": idx})
+        ii = np.repeat(idx, 4)
+        jj = np.tile(np.arange(4, dtype=np.int64), len(idx))
+        items.append(("OneHot", "OneHot", "int64", "o_onehot 4 0 1", (ii, jj), [[float(v)] for v in out.reshape(-1)], "fint"))
+    except Exception as e:
+        skipped_no_kernel.append("OneHot:int64") if "NOT_IMPLEMENTED" in str(e) else ctx.oblige("tieD1:OneHot", False, "tie", str(e)[:300])
+    # Slice on one axis of extent 6: (starts, ends) grid; result as (first element, length)
+    data = np.arange(6, dtype=np.int32)
+    se = [(s, e) for s in (-2 ** 40, -13, -7, -6, -5, -1, 0, 1, 3, 5, 6, 7, 2 ** 40) for e in (-2 ** 40, -7, -6, -4, -1, 0, 2, 3, 6, 8, 2 ** 40)]
+    rows, ss, ee = [], [], []
+    slice_err = None
+    try:
+        import onnxruntime as ort
+        from onnx import helper
+        ins = [helper.make_tensor_value_info("x", ONNX_CODE["int32"], [6]), helper.make_tensor_value_info("s", ONNX_CODE["int64"], [1]),
+               helper.make_tensor_value_info("e", ONNX_CODE["int64"], [1])]
+        from onnx import numpy_helper
+        g = helper.make_graph([helper.make_node("Slice", ["x", "s", "e", "a"], ["o"])], "g", ins,
+                              [helper.make_empty_tensor_value_info("o")], initializer=[numpy_helper.from_array(np.array([0], dtype=np.int64), "a")])
+        m = helper.make_model(g, opset_imports=[helper.make_opsetid("", OPSET)])
+        m.ir_version = 10
+        so = ort.SessionOptions()
+        so.log_severity_level = 4
+        sess = ort.InferenceSession(m.SerializeToString(), so, providers=["CPUExecutionProvider"])
+        for s_, e_ in se:
+            r = sess.run(None, {"x": data, "s": np.array([s_], dtype=np.int64), "e": np.array([e_], dtype=np.int64)})[0]
+            ss.append(s_)
+            ee.append(e_)
+            rows.append([int(r[0]) if len(r) else None, len(r)])
+        items.append(("Slice", "Slice", "int64", "o_slice1 6", (np.array(ss, dtype=np.int64), np.array(ee, dtype=np.int64)), rows, "slice"))
+    except Exception as e:
+        slice_err = str(e)
+        ctx.oblige("tieD1:Slice", False, "tie", slice_err[:300])
+
+    def render(chunk, off):
+        txt = ""
+        for j, (label, op, dt, coqf, cols, rows, kind) in enumerate(chunk):
+            txt += _render_cases(f"d{off + j}", coqf, cols, rows, kind)
+        return txt
+    res = common.coq_eval_batches(ctx, "c01k_d1", COQ_HDR, items, render, per_file=40)
+    bads = _collect_bad(res, len(items))
+    deviations = {}
+    n_cases = 0
+    if bads is None:
+        ctx.oblige("tieD1:onnxint-vs-onnxruntime", False, "tie", "Coq evaluation failed: " + "\n".join(o[-600:] for ok, o in res if not ok)[:1500])
+        return set(), {"cases": 0}
+    unexpected = []
+    for (label, op, dt, coqf, cols, rows, kind), bad in zip(items, bads):
+        n_cases += len(rows)
+        if bad:
+            pts = [([c[i].item() for c in cols], rows[i]) for i in bad[:3]]
+            deviations.setdefault((op, dt), []).append((label, len(bad), pts))
+            if (op, dt) not in ORT_KNOWN_DEVIATIONS:
+                unexpected.append(f"{label}:{dt} differs on {len(bad)}/{len(rows)} points, e.g. inputs {pts[0][0]} onnxruntime {pts[0][1]}")
+    ctx.oblige(f"tieD1:onnxint-operators-equal-onnxruntime({len(items)} one-op models, {n_cases} points)", not unexpected, "tie",
+               "; ".join(unexpected[:6]))
+    stats = {"one_op_models": len(items), "cases": n_cases,
+             "onnxruntime_has_no_kernel": sorted(set(skipped_no_kernel)),
+             "not_in_onnx_type_constraint": len(skipped_schema),
+             "onnxruntime_deviations_from_onnx_semantics": {f"{op}:{dt}": [f"{l}: {n} points, e.g. {p[0]}" for l, n, p in v]
+                                                          for (op, dt), v in sorted(deviations.items())}}
+    return set(deviations), stats
+
+
+def _render_cases(name, coqf, cols, rows, kind):
+    """Definition + Eval: indices of the cases where the Coq function disagrees with the recorded rows"""
+    n = len(cols)
+    xs = [f"x{j}" for j in range(n)]
+    tys = []
+    for c in cols:
+        tys.append("bool" if c.dtype == np.bool_ else ("frac" if c.dtype.kind == "f" else "Z"))
+    if kind == "slice":
+        rty, rl = "(option Z * Z)", (lambda r: f"({common.optlit(r[0], zlit)}, {zlit(r[1])})")
+        cmp_ = (f"let '(a_, n_) := ({coqf}) {' '.join(xs)} in (n_ =? snd r) && "
+                f"match fst r with Some f_ => a_ =? f_ | None => true end")
+    else:
+        rty = "bool" if kind == "bool" else "Z"
+        rl = lambda r: result_lit(r[0], kind)
+        cmp_ = eq_term(kind, f"({coqf}) {' '.join(xs)}", "r")
+    cases = "; ".join("(" + ", ".join([lit(c[i]) for c in cols] + [rl(rows[i])]) + ")" for i in range(len(rows)))
+    pat = "(" + ", ".join(xs + ["r"]) + ")"
+    return (f"Definition {name} : list ({' * '.join(tys + [rty])}) := [{cases}].\n"
+            f"Eval vm_compute in bad_idx_ (fun c => let '{pat} := c in {cmp_}) 0 {name}.\n")
+
+
+def _collect_bad(results, n_expected):
+    out = []
+    for ok, o in results:
+        if not ok:
+            return None
+        for m in re.finditer(r"=\s*(\[[^\]]*\]|nil)\s*:\s*list nat", o.replace("\n", " ")):
+            body = m.group(1)
+            out.append([] if body in ("nil", "[]") else [int(x.replace("%nat", "")) for x in body.strip("[]").split(";") if x.strip()])
+    return out if len(out) == n_expected else None
+
+
+# ------------------------------------------------------------------------------------------------ the check
+PROP = "C01"          # findings of this sub-check are findings of property C01
+
+
+def _set_x64(v):
+    import jax
+    prev = bool(jax.config.jax_enable_x64)
+    if prev != bool(v):
+        jax.config.update("jax_enable_x64", bool(v))
+    return prev
+
+
+def _reason_key(v, reason):
+    return f"kernel:{v.k.name}:{v.dt}:{reason}"
+
+
+def run(ctx):
+    import logging
+    logging.disable(logging.CRITICAL)
+    import jax  # noqa: F401
+    from concurrent.futures import ThreadPoolExecutor
+    tier, rng = ctx.tier, ctx.rng
+    ctx.trusted_base = list(ctx.trusted_base) + [
+        "C01K: Coq 8.16.1 kernel; vm_compute (no native_compute); theorems of props/C01K.v closed under the global context",
+        "C01K: OnnxInt.v = assumed scalar semantics of the ONNX integer/boolean operators (validated on this run against "
+        "onnxruntime on one-op models over a boundary grid per dtype; recorded onnxruntime deviations listed in the coverage)",
+        "C01K: Kernels.v jax_<k> = assumed JAX semantics (validated on this run against eager JAX on the boundary grid, bit-exact)",
+        "C01K: harness/c01k.py gallina_of_model (fail-closed translation of the exported node list to a Gallina term) and "
+        "Coq's conversion check of that term against Kernels.lowered_<k>",
+        "C01K: elementwise lifting: the kernels are scalar functions; that ONNX elementwise operators apply them pointwise "
+        "with numpy broadcasting is part of the glue theorem of C01, not of this part",
+    ]
+    ctx.assumptions = list(ctx.assumptions) + [
+        "C01K domain: integer division by zero and INT_MIN / -1 are excluded (JAX documents both as implementation defined; "
+        "onnxruntime raises an error resp. traps with SIGFPE on them)",
+        "C01K domain: shift amounts are taken >= 0 (negative amounts on signed types: numpy undefined, XLA saturates, the lowering "
+        "treats them as 0 — not counted as a finding); select_n integer selectors are in {0, 1}",
+        "C01K: Floor/Ceil/Round theorems are over exact fractions; that the integer results are representable in the float format "
+        "is a property of binary floating point not proved here (checked on the grid in float32 and float64)",
+        "C01K: variants onnxruntime has no kernel for, or on which onnxruntime itself deviates from the ONNX operator semantics "
+        "(measured by tie D1 on this run), are proved and structure-tied but not searched through onnxruntime",
+    ]
+    common.build_props(ctx, "C01K", [])
+
+    ks = _kernels()
+    variants = [Variant(k, dt) for k in ks for dt in k.dtypes]
+    if tier == "quick":
+        # the quick tier keeps every kernel and every dtype family but drops some redundant width variants
+        drop = {("integer_pow0", d) for d in INT_DTYPES if d not in ("int32", "int64")} | \
+               {("integer_pow1", d) for d in INT_DTYPES if d not in ("int32", "int64")}
+        variants = [v for v in variants if (v.k.name, v.dt) not in drop]
+    else:
+        drop = {("integer_pow0", d) for d in INT_DTYPES if d not in ("int32", "int64", "uint8")} | \
+               {("integer_pow1", d) for d in INT_DTYPES if d not in ("int32", "int64", "uint8")}
+        variants = [v for v in variants if (v.k.name, v.dt) not in drop]
+    for v in variants:
+        v.inputs = kernel_inputs(v.k, v.dt, tier, rng)
+        if tier != "quick" and v.k.args in ("i",) and v.dt in INT_DTYPES:
+            info = np.iinfo(v.dt)
+            extra = np.array([rng.randint(info.min, info.max) for _ in range(40)], dtype=v.dt)
+            v.inputs = (np.concatenate([v.inputs[0], extra]),)
+    prev64 = _set_x64(False)
+    try:
+        # ---- phase 1: eager JAX references (BEFORE any export of the same callable)
+        def ref(v):
+            try:
+                v.jax = call_jax(v.k, v.dt, v.inputs)
+            except Exception as e:  # noqa: BLE001
+                v.jax_err = f"{type(e).__name__}: {e}"[:400]
+        for flag in (False, True):
+            _set_x64(flag)
+            todo = [v for v in variants if v.needs64() == flag]
+            with ThreadPoolExecutor(max_workers=8) as ex:
+                list(ex.map(ref, todo))
+        # ---- phase 2: real exports of the single-primitive programs
+        for flag in (False, True):
+            _set_x64(flag)
+            for v in variants:
+                if v.needs64() != flag or v.jax_err:
+                    continue
+                try:
+                    v.model = export(v.k, v.dt, v.inputs)
+                except Exception as e:  # noqa: BLE001
+                    v.export_err = f"{type(e).__name__}: {e}"[:400]
+    finally:
+        _set_x64(prev64)
+    for v in variants:
+        if v.jax_err:
+            ctx.oblige(f"jax-reference:{v.id}", False, "tie", "eager JAX failed on the boundary grid: " + v.jax_err)
+        elif v.export_err:
+            ctx.oblige(f"export:{v.id}", False, "tie", "to_onnx failed on the single-primitive program: " + v.export_err)
+    live = [v for v in variants if v.model is not None]
+
+    # ---- tie D1: OnnxInt vs onnxruntime (one-op models); measured onnxruntime deviations
+    deviations, d1stats = run_d1(ctx, tier, rng)
+
+    # ---- tie S: structure of the real export, convertible to Kernels.lowered_<k>
+    for v in live:
+        try:
+            v.term, v.okind, v.ocode = gallina_of_model(v.model, v.k, v.dt)
+        except Unrecognised as e:
+            v.term_err = str(e)
+    recognised = [v for v in live if v.term is not None]
+
+    def render_s(chunk, off):
+        txt = ""
+        for j, v in enumerate(chunk):
+            _, low, _ = coq_names(v.k, v.dt)
+            txt += (f"Goal ({v.term}) = ({low}).\nProof. first [ timeout 20 reflexivity; idtac \"TIE_S_OK {off + j}\" "
+                    f"| idtac \"TIE_S_BAD {off + j}\" ]. Abort.\n")
+        return txt
+    res = common.coq_eval_batches(ctx, "c01k_s", COQ_HDR, recognised, render_s, per_file=60)
+    s_ok = set()
+    s_out = "\n".join(o for _, o in res)
+    for m in re.finditer(r"TIE_S_OK (\d+)", s_out):
+        s_ok.add(int(m.group(1)))
+    for i, v in enumerate(recognised):
+        v.s_ok = i in s_ok
+    for v in live:
+        if v.term is None:
+            ctx.oblige(f"tieS:{v.id}", False, "tie", f"kernel structure not recognised: {v.k.name} ({v.term_err}); nodes: {structure(v.model)}")
+        elif not v.s_ok:
+            ctx.oblige(f"tieS:{v.id}", False, "tie",
+                       f"kernel structure not recognised: {v.k.name}: exported graph {structure(v.model)} translates to {v.term} "
+                       f"which is not convertible to {coq_names(v.k, v.dt)[1]}")
+    n_s = sum(1 for v in recognised if v.s_ok)
+    ctx.oblige(f"tieS:exported-structure-convertible-to-lowered_k({n_s}/{len(live)} kernel x dtype variants)",
+               n_s == len(live), "tie", "" if n_s == len(live) else "see the tieS:<kernel>:<dtype> obligations")
+
+    # ---- the property on the real code: onnxruntime(export) vs eager JAX on the grid
+    no_kernel, deviant, searched, points = [], [], 0, 0
+    nontrivial = 0
+    for v in live:
+        terr = schema_type_errors(v.model)
+        if terr:
+            v.status = "onnx-type-invalid"
+            ort_msg = ""
+            try:
+                run_ort(v.model, v.k, v.dt, tuple(a[:1] for a in v.inputs))
+                ort_msg = "onnxruntime nevertheless ran it"
+            except Exception as e:  # noqa: BLE001
+                ort_msg = "onnxruntime: " + str(e).replace("\n", " ")[:200]
+            ctx.violate(_reason_key(v, "onnx-type-invalid"),
+                        f"{v.k.name} on {v.dt}: the exported model is not valid ONNX ({'; '.join(terr)} is outside the operator's type "
+                        f"constraint); {ort_msg}; JAX computes it (e.g. inputs {point(v, 0)} -> {rows_jax(v)[0]})",
+                        {"kind": "onnx-type-invalid", "kernel": v.k.name, "dtype": v.dt, "input": point(v, 0), "nodes": structure(v.model)})
+            continue
+        dev = sorted(node_op_dtypes(v.model) & deviations)
+        if dev:
+            v.status = "ort-deviant"
+            deviant.append(f"{v.id} ({', '.join(f'{o}:{d}' for o, d in dev)})")
+            continue
+        try:
+            v.ort = run_ort(v.model, v.k, v.dt, v.inputs)
+        except Exception as e:  # noqa: BLE001
+            msg = str(e).replace("\n", " ")
+            if "NOT_IMPLEMENTED" in msg:
+                v.status = "ort-no-kernel"
+                no_kernel.append(v.id)
+                continue
+            v.status = "ort-error"
+            ctx.violate(_reason_key(v, "ort-rejects-model"),
+                        f"{v.k.name} on {v.dt}: onnxruntime cannot run the exported model: {msg[:300]}",
+                        {"kind": "ort-error", "kernel": v.k.name, "dtype": v.dt, "input": point(v, 0), "nodes": structure(v.model)})
+            continue
+        v.status = "searched"
+        searched += 1
+        rj, ro = rows_jax(v), rows_ort(v)
+        points += len(rj)
+        shape_bad = False
+        if v.k.name == "dynamic_slice":
+            exp_rows = [np.asarray(r).tolist() for r in v.jax]
+            got_rows = [np.asarray(r).tolist() for r in v.ort]
+            v.bad = [i for i in range(len(exp_rows)) if exp_rows[i] != got_rows[i]]
+            shape_bad = any(len(exp_rows[i]) != len(got_rows[i]) for i in v.bad)
+            dtype_bad = any(np.asarray(a).dtype != np.asarray(b).dtype for a, b in zip(v.jax, v.ort))
+        else:
+            j, o = np.asarray(v.jax), np.asarray(v.ort)
+            dtype_bad = j.dtype != o.dtype
+            if j.shape != o.shape:
+                shape_bad = True
+                v.bad = [0]
+            else:
+                eq = (j == o)
+                if j.dtype.kind == "f":
+                    eq = eq | (np.isnan(j) & np.isnan(o))
+                v.bad = np.nonzero(~eq.reshape(len(v.inputs[0]), -1).all(axis=1))[0].tolist()
+            nontrivial += int((j.reshape(len(v.inputs[0]), -1)[:, 0] != np.asarray(v.inputs[0]).astype(j.dtype, copy=False)).sum()) \
+                if j.shape[:1] == v.inputs[0].shape and v.inputs[0].dtype != np.bool_ and j.dtype != np.bool_ else len(rj) // 2
+        if dtype_bad and not v.bad:
+            ctx.violate(_reason_key(v, "dtype-mismatch"),
+                        f"{v.k.name} on {v.dt}: onnxruntime returns {np.asarray(v.ort[0] if isinstance(v.ort, list) else v.ort).dtype}, JAX "
+                        f"{np.asarray(v.jax[0] if isinstance(v.jax, list) else v.jax).dtype}",
+                        {"kind": "value", "kernel": v.k.name, "dtype": v.dt, "input": point(v, 0), "nodes": structure(v.model)})
+        if v.bad:
+            i = v.bad[0]
+            got = (np.asarray(v.ort[i]).tolist() if isinstance(v.ort, list) else np.asarray(v.ort)[i].tolist()) if not (shape_bad and not isinstance(v.ort, list)) else f"shape {np.asarray(v.ort).shape}"
+            exp = np.asarray(v.jax[i]).tolist() if isinstance(v.jax, list) else np.asarray(v.jax)[i].tolist()
+            reason = "shape-mismatch" if shape_bad else "value-mismatch"
+            ctx.violate(_reason_key(v, reason),
+                        f"{v.k.name} on {v.dt}: inputs {point(v, i)}: exported model in onnxruntime gives {got}, eager JAX gives {exp} "
+                        f"({len(v.bad)} of {len(rj)} grid points differ); nodes {structure(v.model)}",
+                        {"kind": "value", "kernel": v.k.name, "dtype": v.dt, "input": point(v, i), "onnxruntime": got, "jax": exp,
+                         "differing_points": len(v.bad), "more_inputs": [point(v, b) for b in v.bad[1:6]], "nodes": structure(v.model)})
+
+    # ---- ties D2 (jax_k == eager JAX) and D3 (lowered_k == onnxruntime(export)), inside Coq on the same grid
+    cap = 100 if tier == "quick" else 400
+    d_items = []
+    for v in live:
+        try:
+            jx, low, kind = coq_names(v.k, v.dt)
+            rj = rows_jax(v)
+            sel = _cap(len(rj), cap, rng, must=v.bad[:20])
+            if v.k.name == "one_hot":
+                n = v.k.extra["n"]
+                cols = (np.repeat(v.inputs[0][sel], n).astype(np.int64) if v.dt != "uint64" else np.repeat(v.inputs[0][sel], n),
+                        np.tile(np.arange(n, dtype=np.int64), len(sel)))
+                jr = [[x] for i in sel for x in rj[i]]
+                orr = [[x] for i in sel for x in rows_ort(v)[i]] if v.status == "searched" else None
+            else:
+                cols = tuple(a[sel] for a in v.inputs)
+                jr = [rj[i] for i in sel]
+                orr = [rows_ort(v)[i] for i in sel] if v.status == "searched" else None
+            if kind == "slice":
+                jr = [[r[0] if r[1] else None, r[1]] for r in jr]
+                orr = [[r[0] if r[1] else None, r[1]] for r in orr] if orr is not None else None
+            d_items.append((v, "jax", jx, cols, jr, kind))
+            if orr is not None and v.s_ok if hasattr(v, "s_ok") else False:
+                d_items.append((v, "ort", low, cols, orr, kind))
+        except Exception as e:  # noqa: BLE001
+            ctx.oblige(f"tieD2:{v.id}", False, "tie", f"cannot render the grid: {type(e).__name__}: {e}"[:300])
+
+    def render_d(chunk, off):
+        return "".join(_render_cases(f"g{off + j}", f, cols, rows, kind) for j, (v, side, f, cols, rows, kind) in enumerate(chunk))
+    res = common.coq_eval_batches(ctx, "c01k_d", COQ_HDR, d_items, render_d, per_file=24)
+    bads = _collect_bad(res, len(d_items))
+    n_d2 = n_d3 = c_d2 = c_d3 = 0
+    if bads is None:
+        ctx.oblige("tieD2:jax_k-equals-eager-JAX", False, "tie", "Coq evaluation failed: " + "\n".join(o[-500:] for ok, o in res if not ok)[:1500])
+    else:
+        bad_d2, bad_d3 = [], []
+        for (v, side, f, cols, rows, kind), bad in zip(d_items, bads):
+            if side == "jax":
+                n_d2 += 1
+                c_d2 += len(rows)
+                if bad:
+                    bad_d2.append(f"{v.id}: {f} differs from eager JAX on {len(bad)}/{len(rows)} points, e.g. inputs "
+                                  f"{[c[bad[0]].item() for c in cols]} JAX {rows[bad[0]]}")
+            else:
+                n_d3 += 1
+                c_d3 += len(rows)
+                if bad:
+                    bad_d3.append(f"{v.id}: {f} differs from onnxruntime on the real export on {len(bad)}/{len(rows)} points, e.g. inputs "
+                                  f"{[c[bad[0]].item() for c in cols]} onnxruntime {rows[bad[0]]}")
+        ctx.oblige(f"tieD2:jax_k-equals-eager-JAX({n_d2} variants, {c_d2} points)", not bad_d2, "tie", "; ".join(bad_d2[:6]))
+        ctx.oblige(f"tieD3:lowered_k-equals-onnxruntime-on-the-real-export({n_d3} variants, {c_d3} points)", not bad_d3, "tie",
+                   "; ".join(bad_d3[:6]))
+
+    kernels_seen = sorted({v.k.name for v in live})
+    ctx.coverage.update({
+        "c01k_kernels": len(kernels_seen), "c01k_kernel_list": kernels_seen,
+        "c01k_variants_exported": len(live), "c01k_variants_structure_tied": n_s,
+        "c01k_variants_searched_in_onnxruntime": searched, "c01k_search_points": points,
+        "c01k_variants_onnxruntime_has_no_kernel": no_kernel,
+        "c01k_variants_skipped_for_onnxruntime_deviation": deviant,
+        "c01k_tieD1": d1stats,
+        "c01k_tieD2_points": c_d2, "c01k_tieD3_points": c_d3,
+    })
+    ctx.coverage["evaluations"] = ctx.coverage.get("evaluations", 0) + points + d1stats.get("cases", 0) + c_d2 + c_d3
+    ctx.coverage["distinct_nontrivial"] = ctx.coverage.get("distinct_nontrivial", 0) + nontrivial
+    ctx.coverage.setdefault("rule", "")
+    ctx.coverage["rule"] = (ctx.coverage["rule"] + " | " if ctx.coverage["rule"] else "") + \
+        ("C01K: every kernel x dtype variant on the full boundary grid (min, min+1, -1, 0, 1, max-1, max, powers of two +-1, "
+         "shift amounts 0..bits+1 and max, divisors of both signs, exact halves); a point is non-trivial when the result "
+         "differs from the first operand (measured)")
+    ctx.samples = list(ctx.samples) + [{"kernel": v.id, "input": point(v, len(v.inputs[0]) // 2), "jax": rows_jax(v)[len(v.inputs[0]) // 2],
+                                        "nodes": structure(v.model)[:4]} for v in live[:: max(1, len(live) // 8)]][:10]
+    return ctx
+
+
+def replay(path):
+    """re-run one recorded failing input: eager JAX first, then the real export in onnxruntime"""
+    import logging
+    logging.disable(logging.CRITICAL)
+    r = json.load(open(path))["replay"]
+    ks = {k.name: k for k in _kernels()}
+    k, dt = ks[r["kernel"]], r["dtype"]
+    cols = []
+    probe = Variant(k, dt)
+    probe.inputs = kernel_inputs(k, dt, "quick", None)
+    for a, x in zip(probe.inputs, r["input"]):
+        cols.append(np.array([x], dtype=a.dtype))
+    probe.inputs = tuple(cols)
+    prev = _set_x64(probe.needs64())
+    try:
+        jx = call_jax(k, dt, probe.inputs)
+        model = export(k, dt, probe.inputs)
+    finally:
+        _set_x64(prev)
+    terr = schema_type_errors(model)
+    print("nodes:", structure(model))
+    print("eager JAX:", np.asarray(jx[0]).tolist())
+    if terr:
+        print("exported model is not valid ONNX:", terr, "-> still violated")
+        return 1
+    try:
+        got = run_ort(model, k, dt, probe.inputs)
+    except Exception as e:  # noqa: BLE001
+        print("onnxruntime:", str(e)[:300], "-> still violated")
+        return 1
+    g0, j0 = np.asarray(got[0]), np.asarray(jx[0])
+    print("onnxruntime:", g0.tolist())
+    same = g0.shape == j0.shape and bool((g0 == j0).all()) and g0.dtype == j0.dtype
+    print("-> ok" if same else "-> still violated")
+    return 0 if same else 1
